@@ -218,13 +218,14 @@ func (e *DNSEntry) decodeRRs(count int, p DNS, offset int, buffer []byte) (int, 
 
 		case 5: // CNAME
 			var cname []byte
+			owner := string(name) // name aliases buffer, which the next decodeName overwrites
 			tmpBuf = buffer
 			cname, _, err = decodeName(p, endq+10, &tmpBuf, 1)
 			if err != nil {
 				return 0, false, fmt.Errorf("invalid CNAME data: %w", err)
 			}
-			if _, found := e.CNameRecords[string(name)]; !found {
-				r := NameResourceRecord{Name: string(name), TTL: ttl, CName: string(cname)}
+			if _, found := e.CNameRecords[owner]; !found {
+				r := NameResourceRecord{Name: owner, TTL: ttl, CName: string(cname)}
 				e.CNameRecords[r.Name] = r
 				updated = true
 			}
